@@ -22,7 +22,7 @@ PROPS["C15"] = dict(
         dict(harness="log_roll", mode="hist", quick=dict(cases=6000, size=100, shards=4),
              thorough=dict(cases=25000, size=100, shards=16)),
     ],
-    rule="configuration = policy x limit x maximum generations 1..4; history over {write short, write medium, write long message "
+    rule="configuration = policy x limit x maximum generations 1..4 (file names log.NN, minimum width 2) or 11..12 (minimum width 1: log.0 .. log.9, log.10, log.11; small limits, 30..60 events); history over {write short, write medium, write long message "
          "(each text+newline strictly below the limit), reopen = destroy the policy (or the files::Handler owning it) and construct a "
          "new one on the same directory}. Exhaustive part: ALL histories of length 7 (quick) / 9 (thorough) for the 20 configurations "
          "of the small range (Counted max_entries 1..3 x generations 1..3, Counted 1 x 4; MaxSize limit {8,10,13} bytes x generations "
@@ -36,7 +36,7 @@ PROPS["C15"] = dict(
     # journal is shared with everything else that runs; the cap is only the safety net of DESIGN 2.3(5)
     wall_cap=dict(quick=900, thorough=7200),
     require_classes=dict(all=["policy.counted", "policy.maxsize", "via.policy", "via.handler", "gens.1", "write.append", "write.roll",
-                              "write.boundary_exact", "write.oversized_message", "reopen.nonempty", "reopen.empty", "reopen.roll", "roll.dropped_oldest"]),
+                              "write.boundary_exact", "write.oversized_message", "reopen.nonempty", "reopen.empty", "reopen.roll", "roll.dropped_oldest", "gens.ten_or_more_with_one_digit_minimum_width"]),
     assumptions=[
         "a message is text + one newline byte (PolicyBase::writeMessage writes msg_text << std::endl); sizes are bytes on disk",
         "ordinary messages fit into an empty file under the strictest reading (text+newline strictly below the MaxSize limit), so no "
